@@ -292,6 +292,10 @@ def main(argv) -> int:
         groups.setdefault((tuple(c['ns']), c['short_name'], c['major']), []).append(c)
     for (nsp, short, major), cs in groups.items():
         newest = max(cs, key=lambda c: c['minor'])
+        class_ids = {'%s_%d_%d' % (c2['short_name'], c2['major'], c2['minor']) for c2 in drv.TYPES.values()
+                     if tuple(c2['ns']) == nsp and not c2['service_part']}
+        if '%s_%d' % (short, major) in class_ids:
+            continue      # the alias would have the identifier of a class: it must not exist (CLASS-IDENTITY below checks the class)
         try:
             mod = drv._import_ns(list(nsp))
             if getattr(mod, '%s_%d' % (short, major)) is not drv.get_cls(newest['id']):
